@@ -93,7 +93,9 @@ def write_dataset(d, spec):
     params.write_text(
         'dat_path = %r\nn_channels_dat = %d\ndtype = %r\noffset = %d\nsample_rate = %r\nhp_filtered = False\n' % (
             dat_paths if len(dat_paths) != 1 else dat_paths[0], spec['n_channels_dat'],
-            spec.get('dtype', 'int16'), spec.get('offset', 0), float(spec['sample_rate'])))
+            spec.get('dtype', 'int16'), spec.get('offset', 0), float(spec['sample_rate'])) +
+        ('template_scaling = %r\n' % float(spec['template_scaling']) if spec.get('template_scaling') is not None else '') +
+        ''.join('%s = %r\n' % kv for kv in sorted((spec.get('params_extra') or {}).items())))
     return params
 
 
